@@ -79,22 +79,22 @@ func LenientStatus(p RawPacket) (uint32, bool) {
 }
 
 type CaseResult struct {
-	ConnID       string   `json:"conn_id"`
-	Transport    string   `json:"transport"`
-	History      []string `json:"history"`
-	Sent         int      `json:"sent"`
-	Observed     []string `json:"observed"`
-	End          string   `json:"end"`
-	Dials        []string `json:"dial_events"`
-	Accepts      []string `json:"backend_accepts"`
-	RelayedBytes int      `json:"relayed_bytes"`
-	FinalStates  []string `json:"model_states"`
-	Trace        []TLog   `json:"trace,omitempty"`
-	Problems     []string `json:"problems,omitempty"`
-	ProblemKeys  []string `json:"-"`
-	Inconclusive string   `json:"inconclusive,omitempty"`
-	ReachedOpen  bool     `json:"reached_open"`
-	Steps        int      `json:"steps_processed"`
+	ConnID       string      `json:"conn_id"`
+	Transport    string      `json:"transport"`
+	History      []string    `json:"history"`
+	Sent         int         `json:"sent"`
+	Observed     []string    `json:"observed"`
+	End          string      `json:"end"`
+	Dials        []string    `json:"dial_events"`
+	Accepts      []string    `json:"backend_accepts"`
+	RelayedBytes int         `json:"relayed_bytes"`
+	FinalStates  []string    `json:"model_states"`
+	Trace        []TLog      `json:"trace,omitempty"`
+	Problems     []string    `json:"problems,omitempty"`
+	ProblemKeys  []string    `json:"-"`
+	Inconclusive string      `json:"inconclusive,omitempty"`
+	ReachedOpen  bool        `json:"reached_open"`
+	Steps        int         `json:"steps_processed"`
 	Packets      []RawPacket `json:"-"`
 	MsgSizes     []int       `json:"-"`
 }
